@@ -7,9 +7,15 @@
 
 package agent
 
+import "sync"
+
 // simHook is a schedule/crash point of the deterministic-simulation harness. Without the
 // "verif" build tag it is an empty function and is inlined away.
 func simHook(point, key string) {}
 
 // simOrderClients lets the harness own the sync.Map iteration order of the REST clients.
 func simOrderClients(uuids []string) []string { return uuids }
+
+// simRangeClients iterates over the REST clients; the harness build visits them in the harness' order instead of
+// sync.Map's random order.
+func simRangeClients(m *sync.Map, f func(key, value interface{}) bool) { m.Range(f) }
